@@ -170,6 +170,25 @@ Section Classes.
     destruct (s_absolute f_position sc) eqn:B; [right; left|left]; exists sc; repeat split; assumption.
   Qed.
 
+  (* ... and to one only; a display:none child is visited once by the hidden loop *)
+  Lemma classes_disjoint st c : hidden_at st c -> ~ in_flow_at st c /\ ~ abs_at st c.
+  Proof.
+    intros (sc & E & A). split; intros (sc' & E' & A' & _); rewrite E in E'; injection E' as <-; congruence.
+  Qed.
+
+  Lemma flag_nodes_lower flags : forall order c, In c (flag_nodes flags order) -> order <= c.
+  Proof. intros order c Hin. apply flag_nodes_iff in Hin. tauto. Qed.
+
+  Lemma flag_nodes_NoDup flags : forall order, NoDup (flag_nodes flags order).
+  Proof.
+    induction flags as [|h r IH]; intros order; cbn [flag_nodes]; [constructor|].
+    destruct h; [|apply IH]. constructor; [|apply IH].
+    intros Hin. apply flag_nodes_lower in Hin. lia.
+  Qed.
+
+  Lemma hidden_nodes_NoDup st : NoDup (hidden_nodes st).
+  Proof. apply flag_nodes_NoDup. Qed.
+
   Lemma in_flow_not_none st c : in_flow_at st c -> forall sc, nth_error st c = Some sc -> f_is_none sc = false.
   Proof. intros (sc & E & A & _) sc' E'. rewrite E in E'. injection E' as <-. exact A. Qed.
   Lemma abs_not_none st c : abs_at st c -> forall sc, nth_error st c = Some sc -> f_is_none sc = false.
@@ -291,6 +310,18 @@ Section Shape.
   | QSL_cons c L i lay k : qok c i -> (forall o, lok c (lay o)) -> (forall o, QSL qok lok K L (k o)) ->
                            QSL qok lok K (c :: L) (Query c i (fun o => SetLayout c (lay o) (k o))).
 
+  (* the same with a query whose ANSWER IS IGNORED: neither the stored layout nor what follows depends on it *)
+  Inductive QSLc (qok : nat -> FIn T -> Prop) (lok : nat -> FLay T -> Prop) (K : Alg -> Prop) : list nat -> Alg -> Prop :=
+  | QSLc_nil a : K a -> QSLc qok lok K [] a
+  | QSLc_cons c L i l k : qok c i -> lok c l -> QSLc qok lok K L k ->
+                          QSLc qok lok K (c :: L) (Query c i (fun _ => SetLayout c l k)).
+
+  Lemma QSLc_QSL qok lok K L a : QSLc qok lok K L a -> QSL qok lok K L a.
+  Proof.
+    induction 1 as [a Ha|c L i l k Hq Hl Hk IH]; [apply QSL_nil; exact Ha|].
+    apply (QSL_cons qok lok K c L i (fun _ => l) (fun _ => k)); [exact Hq|intros _; exact Hl|intros _; exact IH].
+  Qed.
+
   Definition IsRet (a : Alg) : Prop := exists o, a = Ret o.
 
   Lemma Pre_mono (IN : nat -> Prop) (BL : Prop) (Tail Tail' : Alg -> Prop) a : (forall x, Tail x -> Tail' x) -> Pre IN BL Tail a -> Pre IN BL Tail' a.
@@ -348,12 +379,11 @@ Section Shape.
   Qed.
 
   Lemma hidden_pass_qsl (K : Alg -> Prop) k : K k -> forall flags order,
-    QSL (fun _ i => i = hidden_child_input) (fun c l => l = f_with_order c) K (flag_nodes flags order) (hidden_pass flags order k).
+    QSLc (fun _ i => i = hidden_child_input) (fun c l => l = f_with_order c) K (flag_nodes flags order) (hidden_pass flags order k).
   Proof.
-    intros Hk. induction flags as [|h r IH]; intros order; cbn [hidden_pass flag_nodes]; [apply QSL_nil; exact Hk|].
+    intros Hk. induction flags as [|h r IH]; intros order; cbn [hidden_pass flag_nodes]; [apply QSLc_nil; exact Hk|].
     destruct h; [|apply IH].
-    apply (QSL_cons _ _ K order (flag_nodes r (S order)) hidden_child_input (fun _ => f_with_order order)
-                    (fun _ => hidden_pass r (S order) k)); [reflexivity|reflexivity|]. intros _. apply IH.
+    apply QSLc_cons; [reflexivity|reflexivity|apply IH].
   Qed.
 
   (* ---- every query input the preliminary part builds has the mode the shape asks for *)
